@@ -9,7 +9,7 @@ ROOT = os.path.dirname(os.path.dirname(os.path.abspath(__file__)))
 CHECKS = {
  "C04": ("M", "model_checking",
    "bounded exhaustive enumeration of token sequences, CFG-recogniser model vs Compile",
-   "Every token sequence up to the length bound over a one-spelling-per-kind alphabet (quick 4, thorough 6 tokens; 3 whitespace styles), every single-token edit of every generated sentence up to the size bound, and sequences over structured spellings are classified by an independent chart recogniser of the JMESPath ABNF and replayed against Compile; accepted sentences are also searched to show they are usable. Exhaustive inside the bound, so any accept/reject deviation expressible in that many tokens is found.",
+   "Every token sequence up to the length bound over a one-spelling-per-kind alphabet (quick 4, thorough 6 tokens; 3 whitespace styles), every single-token edit of every generated sentence up to the size bound, and sequences over structured spellings are classified by an independent chart recogniser of the JMESPath ABNF and replayed against Compile (a token whose content is invalid - literal that is not JSON, bad escape, bare minus - makes the sequence ungrammatical); every string of up to 3 (thorough 4) symbols of a 69-symbol lexer-class byte alphabet is lexed by the reference lexer and judged the same way; what Compile rejects the one-shot Search must reject too; accepted sentences are also searched to show they are usable. Exhaustive inside the bound, so any accept/reject deviation expressible in that many tokens is found.",
    "Trusted: the ABNF transcription in model/grammar.go (grounded on the 862 official compliance cases and cross-checked against the independent precedence parser P and the sentence generator on all sequences up to 5 kinds). Gaps G1-G4 give no verdict.",
    "DESIGN.md section 5 C04"),
  "C01": ("M", "model_checking",
@@ -19,7 +19,7 @@ CHECKS = {
    "DESIGN.md section 5 C01"),
  "C02": ("M", "model_checking",
    "bounded exhaustive (expression x document) enumeration with outcome sets over object-member orders",
-   "All sentences of the projection fragment containing a projection (every projection kind, chained/nested, RHS that map null to non-null, all terminators) up to the weight bound x ~1.2k-10k documents incl. heterogeneous / null-containing arrays and objects; the real result must be a member of the set of outcomes the reference evaluator admits over all object-member orders.",
+   "All sentences of the projection fragment containing a projection (every projection kind, chained/nested, RHS that map null to non-null, all terminators) up to the weight bound x ~1.2k-10k documents incl. heterogeneous / null-containing arrays and objects, plus every postfix chain (dot, index, two slice forms, [*], .*, [], filters, type(@), with | and || as terminators) up to weight 7 (thorough 8) and ~10^4 projections piped into a second projection; the real result must be a member of the set of outcomes the reference evaluator admits over all object-member orders.",
    "Trusted: model/eval.go. Bounded as reported in the evidence.",
    "DESIGN.md section 5 C02"),
  "C07": ("M", "model_checking",
@@ -64,8 +64,8 @@ CHECKS = {
    "DESIGN.md section 5 C03"),
  "C05": ("M", "model_checking",
    "exhaustive byte-string / pumped-string / hostile-sentence enumeration with recover() and a per-case watchdog",
-   "All strings of up to 3 (thorough 5) symbols over a 50-symbol alphabet with one member per lexer character class and class boundary (incl. invalid UTF-8), the pumping family u^k v w^k up to 64 KiB, and grammar-generated sentences with hostile leaves (extreme integers, non-ASCII, invalid UTF-8) x 30 documents: Compile and Search must return.",
-   "Exhaustive only for the stated alphabet/length; panics attributed by innermost library frame; termination by a 120 s per-case watchdog (cases take microseconds).",
+   "All strings of up to 3 (thorough 5) symbols over a 50-symbol alphabet with one member per lexer character class and class boundary (incl. invalid UTF-8), the pumping family u^k v w^k up to 64 KiB, grammar-generated sentences with hostile leaves (extreme integers, non-ASCII, invalid UTF-8), expression references in every operand position, and calls with 7..256 arguments x 30 documents: Compile and Search must return; a deterministic pass on the statement-instrumented build bounds the statement count of every pumped family (budget and growth rate).",
+   "Exhaustive only for the stated alphabet/length; panics attributed by innermost library frame; termination by a statement budget on the instrumented build plus a 120 s per-case watchdog on the code as shipped; a fatal runtime error of the driver is reported as a crash violation.",
    "DESIGN.md section 5 C05"),
  "C14": ("M", "model_checking",
    "exhaustive short-string / JSON-value enumeration through three independent escapings",
@@ -79,17 +79,17 @@ CHECKS = {
    "DESIGN.md section 5 C17"),
  "C06": ("S", "model_checking",
    "exhaustive (expression x document) enumeration on a statement-instrumented build with a deep write monitor at every statement",
-   "Every built-in with every argument shape, bare and in 14 contexts (projection RHS, filter condition, pipe, multi-select, expression-reference body, error path), plus core/projection universes x documents with unsorted arrays, duplicates, nesting and hidden spare capacity: the document's deep snapshot (order-sensitive, up to capacity) is compared before, at EVERY statement of the instrumented library during, and after each call, on success and error paths; a write is reported with the file:line of the writing statement.",
+   "Every built-in with every argument shape, bare and in 14 contexts (projection RHS, filter condition, pipe, multi-select, expression-reference body, error path), plus core/projection universes x documents with unsorted arrays, duplicates, nesting and hidden spare capacity: the document's deep snapshot (order-sensitive, up to capacity) is compared before, at EVERY statement of the instrumented library during, and after each call, on success and error paths; the documents live as long as the worker and all of them (incl. three with 64-130 element arrays) are re-verified after every expression, so a write that lands after the call returned is seen; a write is reported with the file:line of the writing statement.",
    "Instrumentation is generated from /repo's working tree at run time (go build -overlay). Statement granularity; generic JSON documents.",
    "DESIGN.md section 5 C06"),
  "C12": ("S", "model_checking",
    "controlled cooperative scheduler over the statement-instrumented real code: solo write-monitor runs + independence reduction, and depth-first exploration of interleavings under a preemption bound",
-   "Scenarios S1-S4 (same compiled expression with same/different documents, one-shot Search on a shared document, Compile racing with Search) for every scenario expression: each thread body is run alone with a deep snapshot of all shared state (compiled expression, every package-level variable, shared documents) at every statement; no shared write and no sync operation proves all interleavings equivalent for any number of goroutines (independence theorem), an unsynchronised shared write is a data race; in addition real interleavings of 2 (thorough up to 3) threads are explored depth-first at statement granularity with preemption bound 1 (thorough 2), each schedule checked against the solo results; failing schedules are replayed 3 times.",
+   "Scenarios S1-S4 (same compiled expression with same/different documents, one-shot Search on a shared document, Compile racing with Search) for every scenario expression: each thread body is run alone with a deep snapshot of all shared state (compiled expression, every package-level variable, shared documents) at every statement; no shared write and no sync operation proves all interleavings equivalent for any number of goroutines (independence theorem), an unsynchronised shared write is a data race; in addition real interleavings of 2 (thorough up to 3) threads are explored depth-first at statement granularity with preemption bound 1 (thorough 2), each schedule checked against the solo results; failing schedules are replayed 3 times. Further scenarios: the first library calls of a fresh process inside monitored threads (lazy initialisation), a compiled expression with a past of failing and succeeding searches, struct-typed documents of two layouts, a 40-element document.",
    "Statement-level sequential consistency. Free-running go -race companion run alongside (reported in evidence, not the deciding step). sync.Mutex/RWMutex/Once/WaitGroup are shimmed; channels are not modelled (none in the library).",
    "DESIGN.md sections 3.5, 3.6, 5 C12"),
  "C13": ("H", "model_checking",
    "explicit-state breadth-first search over call histories on real objects, state = deep snapshot digest, to a fixpoint",
-   "For every scenario expression: BFS over Search histories on one compiled object (8 documents incl. failing ones), state = digest of all private fields of the compiled expression plus every package-level variable, to closure (covers histories of every length), plus all histories up to length 2 (thorough 3) replayed call by call; every answer equals the fresh-Compile and the one-shot answer (map order harness-decided, exact equality). Parser: BFS over Parse histories of one Parser over 60 valid/invalid expressions to closure (477 states) plus all histories up to length 2 (thorough 3), each Parse equal to a fresh parser's on AST render and error type/message/offset.",
+   "For every scenario expression: BFS over Search histories on one compiled object (8 documents incl. failing ones), state = digest of all private fields of the compiled expression plus every package-level variable, to closure (covers histories of every length), plus all histories up to length 2 (thorough 3) replayed call by call; every answer equals the fresh-Compile and the one-shot answer (map order harness-decided, exact equality). Parser: BFS over Parse histories of one Parser over 60 valid/invalid expressions to closure (477 states) plus all histories up to length 2 (thorough 3), each Parse equal to a fresh parser's on AST render and error type/message/offset, ASTs handed out earlier re-inspected after later parses, hundreds of rejected inputs followed by valid ones. Process-global state: every sequence of two (thorough three) one-shot Search / Compile calls over the alphabet, each compared with the same call made as the first call of a brand-new process (with a caller that scribbles over returned values); pumped histories of 1500 (thorough 5000) repetitions; caller updates of a document in place between two searches.",
    "Successor states are reached by replaying the shortest history on a fresh object (real objects can not be cloned).",
    "DESIGN.md section 5 C13"),
  "C18": ("M", "model_checking",
